@@ -236,6 +236,20 @@ def extract_dataframe(
     point_dataset = point_dataset.merge(coord_dataset, join=join, fill_value=fill_value)
     point_dataset = point_dataset.set_coords(coordinate_columns)
 
+    if missing_points == 'fill':
+        # Integer variables are promoted to floats in order to hold the fill value.
+        # The integer encoding they were opened with can not store that value,
+        # saving the dataset would write the fill value cast to an integer instead.
+        for variable in point_dataset.variables.values():
+            encoded_dtype = variable.encoding.get('dtype')
+            if (
+                encoded_dtype is not None
+                and variable.dtype.kind == 'f'
+                and numpy.dtype(encoded_dtype).kind in 'iu'
+                and variable.encoding.get('_FillValue') is None
+            ):
+                del variable.encoding['dtype']
+
     # Add CF attributes to the new coordinate variables
     point_dataset[lon_coord].attrs.update({
         "long_name": "Longitude",
